@@ -26,3 +26,5 @@ git -C /repo apply $SRC/patch.diff
 for p in "$@"; do ./check $p | grep -E "^(VIOLATION|OK|KNOWN)"; done
 git -C /repo checkout -- .
 git -C /repo status --short | head -3
+# the evidence files were rewritten by the runs above (with the change applied): restore them from the clean tree
+for p in "$@"; do ./check $p > /dev/null 2>&1; done
